@@ -35,12 +35,12 @@ from . import core, devices
 # candidate repairs (exact change test for the applied potential; terminal value re-imposed
 # after the Euler step).  Which one the tree under test implements is decided by TLC
 # (trace validation under both), and that mechanism is then model-checked.
-CODE = dict(MMask=True, MBothHalves=True, MFreshLinks=True, MFixPsi=True, MFixFlag="at_use", MSkipEqual=False)
+CODE = dict(MMemoLpsi=False, MMask=True, MBothHalves=True, MFreshLinks=True, MFixPsi=True, MFixFlag="at_use", MSkipEqual=False)
 PINNED = dict(MTrigger="prev_close", MReimpose="never", MReimposeOnRetry=True, **CODE)
 REPAIRED = dict(MTrigger="exact", MReimpose="configured", MReimposeOnRetry=True, **CODE)
 
 INV_OPS = ["TypeOK", "RefreshEqualsRebuild", "FixedRowsAreIdentity", "NoOtherRowPinned", "LapHermitianOnFreeBlock"]
-INV_C10_STEP = ["TypeOK", "RefreshEqualsRebuild", "OperatorsMatchLatestA", "NoScreeningNoInduced"]
+INV_C10_STEP = ["TypeOK", "RefreshEqualsRebuild", "OperatorsMatchLatestA", "EulerUsesLatestOperators", "NoScreeningNoInduced"]
 INV_C06_OPS = ["TypeOK", "FixedRowsAreIdentity", "NoOtherRowPinned"]
 INV_C06_STEP = ["TypeOK", "FixedRowsAreIdentity", "NoOtherRowPinned", "PinnedSitesStayPinned", "UnsetMeansFree"]
 
@@ -141,14 +141,18 @@ def _dense(m):
     return np.asarray(m.toarray() if hasattr(m, "toarray") else m)
 
 
-def _pin_flags(L, fixed):
-    """(class of the rows of `fixed`, some other row is an identity row)"""
+def _pin_flags(L, fixed, others=None):
+    """(class of the rows of `fixed`, some row of `others` (default: every other row) is an identity row)"""
     n = L.shape[0]
     eye = np.eye(n, dtype=L.dtype)
     is_id = np.all(L == eye, axis=1)
     fixed = np.asarray(fixed, dtype=int)
-    other = np.ones(n, dtype=bool)
-    other[fixed] = False
+    if others is None:
+        other = np.ones(n, dtype=bool)
+        other[fixed] = False
+    else:
+        other = np.zeros(n, dtype=bool)
+        other[np.asarray(others, dtype=int)] = True
     if len(fixed) == 0:
         cls = "na"
     elif is_id[fixed].all():
@@ -250,7 +254,7 @@ def replay_ops_generated(tdgl, a, tmp):
     dev = devices.make(tdgl, a.get("dev", "bar"))
     mesh = dev.mesh
     em = mesh.edge_mesh
-    terms = np.concatenate([t.site_indices for t in dev.terminal_info()]).astype(np.int64)
+    terms = terminal_site_oracle(dev)[0]
     rng = np.random.default_rng(a.get("seed", 0))
     x, y = em.centers[:, 0], em.centers[:, 1]
 
@@ -379,7 +383,18 @@ def natural_run(tdgl, a, tmp):
     from tdgl.finite_volume.operators import MeshOperators
     from tdgl.solver.solver import TDGLSolver
 
-    dev = devices.make(tdgl, a.get("dev", "bar"), mel=a.get("mel", 0.8))
+    dev = devices.make(tdgl, a.get("dev", "bar"), mel=a.get("mel", 0.8), xi=a.get("xi", 1.0))
+    remeshed = None
+    if a.get("remesh"):
+        # mesh-refinement loop on ONE Device object: mesh, look at it, mesh again (finer), then solve
+        d0 = dev
+        dev = tdgl.Device(d0.name, layer=d0.layer, film=d0.film, holes=d0.holes, terminals=list(d0.terminals),
+                          probe_points=d0.probe_points, length_units=d0.length_units)
+        counts = []
+        for mel in a["remesh"]:
+            dev.make_mesh(max_edge_length=mel, smooth=0)
+            counts.append((len(dev.points), len(terminal_site_oracle(dev)[0]), len(dev.terminal_info())))
+        remeshed = counts
     v = _parse_psi(a.get("terminal_psi", [0.0, 0.0]))
     dt = a.get("dt", 2.0 ** -6)
     ad = a.get("adaptive")        # dict(dt_init, dt_max, solve_time[, window, max_retries]): adaptive steps with retries
@@ -413,13 +428,12 @@ def natural_run(tdgl, a, tmp):
         pass            # built below (needs the drive): options read back from the file of a short run
     else:
         raise ValueError(form)
-    term_info = dev.terminal_info()
-    tsites = (np.concatenate([t.site_indices for t in term_info]).astype(np.int64) if term_info
-              else np.array([], dtype=np.int64))
+    # the terminal site set is decided geometrically and independently of Device.terminal_info() / Device.points
+    tsites, nonterm = terminal_site_oracle(dev)
+    has_terminals = len(dev.terminals) > 0
     nsites = len(dev.mesh.sites)
-    nonterm = np.setdiff1d(np.arange(nsites), tsites)
     kw = {}
-    if term_info and a.get("current"):
+    if has_terminals and a.get("current"):
         kw["terminal_currents"] = devices.balanced_currents(a.get("dev", "bar"), a["current"])
     ramp = a.get("ramp")
     if ramp is not None:
@@ -454,7 +468,7 @@ def natural_run(tdgl, a, tmp):
     ev = []
     st = dict(in_update=False, applied=None, induced=None, level=0, seen={}, pending=None, psi_prev=None, psi0=None,
               nonterm_evolved=False, term_evolved=False, max_stale=0.0, first_stale=None, step=-1, unreadable=None,
-              refusals=0, retried_steps=0, max_dev_after_update=0.0, max_dev_after_retried_update=0.0)
+              refusals=0, retried_steps=0, max_step_mismatch=0.0, later_iter=0, changed_in_step=False, max_dev_after_update=0.0, max_dev_after_retried_update=0.0)
     orig = dict(init=TDGLSolver.__init__, update=TDGLSolver.update, field=TDGLSolver.update_applied_vector_potential,
                 euler=TDGLSolver.adaptive_euler_step, obs=TDGLSolver.solve_for_observables,
                 induced=TDGLSolver.get_induced_vector_potential, links=MeshOperators.set_link_exponents,
@@ -466,7 +480,7 @@ def natural_run(tdgl, a, tmp):
         L = _dense(ops.psi_laplacian)
         eq = bool(np.array_equal(L, _dense(fresh.psi_laplacian))
                   and np.array_equal(_dense(ops.psi_gradient), _dense(fresh.psi_gradient)))
-        cls, other = _pin_flags(L, tsites)
+        cls, other = _pin_flags(L, tsites, nonterm)
         return eq, cls, other
 
     def latest_total():
@@ -528,6 +542,19 @@ def natural_run(tdgl, a, tmp):
         res = orig["euler"](self, step, psi, abs_sq_psi, mu, epsilon, dt_)
         # retried: some evaluation of |psi|^2 was refused (returned None) before the step was accepted
         st["pending"]["retried"] = st["refusals"] > before
+        # what the step DID with psi: recompute it with the Laplacian of a freshly built MeshOperators for the total
+        # potential in force at this iteration (same per-site formula, same accepted dt) and compare the new psi.
+        # Tolerance inside the abstraction: 1e-12 (rounding of identical arithmetic: 0; a stale product: >= 1e-9)
+        fresh_ops = _fresh(tdgl, ops, total, orig["links"])
+        ref = orig["solve"](psi=psi, abs_sq_psi=abs_sq_psi, mu=mu, epsilon=epsilon, gamma=self.gamma, u=self.u,
+                            dt=res[2], psi_laplacian=fresh_ops.psi_laplacian)
+        if ref is None:
+            mism = float("inf")
+        else:
+            mism = float(np.max(np.abs(np.asarray(res[0]) - np.asarray(ref[0]))))
+        st["max_step_mismatch"] = max(st["max_step_mismatch"], mism)
+        st["pending"]["stepfresh"] = bool(mism <= 1e-12)
+        st["later_iter"] += bool(st["changed_in_step"])
         st["step_retried"] = st.get("step_retried", False) or st["pending"]["retried"]
         return res
 
@@ -547,11 +574,13 @@ def natural_run(tdgl, a, tmp):
         A_ind, err = orig["induced"](self, current_density, A_induced_vals, velocity)
         new = np.array(A_ind, copy=True)
         ev.append({"ev": "induced", "chg": 0 if np.array_equal(new, st["induced"]) else 1})
+        st["changed_in_step"] = st["changed_in_step"] or not np.array_equal(new, st["induced"])
         st["induced"] = new
         return A_ind, err
 
     def w_update(self, state, running_state, dt_, **kws):
         st["in_update"] = True
+        st["changed_in_step"] = False
         st["step"] = int(state["step"])
         st["induced"] = np.array(kws["induced_vector_potential"], copy=True)
         if not self.dynamic_vector_potential:
@@ -628,14 +657,16 @@ def natural_run(tdgl, a, tmp):
     nfin = sum(1 for e in ev if e["ev"] == "finish")
     ev.append({"ev": "end", "frames": frames, "steps": nfin, "nonterm_evolved": bool(st["nonterm_evolved"]),
                "nonterm_differs": differs, "term_evolved": bool(st["term_evolved"])})
-    mode = "none" if len(tsites) == 0 else ("disabled" if v is None else "terminals")
+    mode = "none" if not has_terminals else ("disabled" if v is None else "terminals")
     vcls = "none" if v is None else ("zero" if v == 0 else "nonzero")
     if mode == "none":
         vcls = "zero"
     return dict(level="step", inst="fan5", mode=mode, scr=bool(opts.include_screening), dyn=ramp is not None, v=vcls,
                 seed=("other" if seed_cls == "seed" else "configured"), form=form,
                 v0=(_psi_class(v0) if form == "assign" else vcls), exact=False, driven=bool(a.get("field") or a.get("current")), ev=ev,
-                info=dict(sites=nsites, terminal_sites=int(len(tsites)), frames=len(classes), steps=nfin,
+                info=dict(sites=nsites, terminal_sites=int(len(tsites)), xi=float(dev.layer.coherence_length), remeshed=remeshed,
+                          ambiguous_sites=int(nsites - len(tsites) - len(nonterm)), max_step_mismatch=st["max_step_mismatch"],
+                          later_iterations_with_new_induced=st["later_iter"], frames=len(classes), steps=nfin,
                           max_relative_staleness=st["max_stale"], first_stale_step=st["first_stale"],
                           max_terminal_deviation_in_frames=worst, seeded=seed is not None, retried_steps=st["retried_steps"],
                           refused_evaluations=st["refusals"], max_terminal_deviation_after_update=st["max_dev_after_update"],
